@@ -92,7 +92,7 @@ Case(u) ==
    product |-> IF clean /\ n > 0 THEN Prod(n, LAMBDA k : u[k]) ELSE 0,
    cross |-> IF clean /\ n = 3 THEN <<u[2] * w[3] - u[3] * w[2], u[3] * w[1] - u[1] * w[3], u[1] * w[2] - u[2] * w[1]>> ELSE <<>>,
    constant |-> clean /\ n > 0 /\ Cardinality(Range(u)) = 1,
-   equalw |-> u = w,
+   equalw |-> u = w, isempty |-> n = 0,
    \* --- VH:: helpers which skip the undefined values
    ndef |-> nd, nundef |-> n - nd, hasna |-> HasNA(u),
    dmin |-> IF nd > 0 THEN MinOf(Range(d)) ELSE 0,
